@@ -299,9 +299,14 @@ func (rl *Shell) yankNthArg() {
 
 	var lastArg string
 
-	// Abort if the required position is out of bounds.
+	// A negative argument counts the words from the end.
 	argNth := rl.Iterations.Get()
-	if len(words) < argNth {
+	if argNth < 0 {
+		argNth = len(words) + argNth + 1
+	}
+
+	// Abort if the required position is out of bounds.
+	if argNth < 1 || len(words) < argNth {
 		return
 	}
 
